@@ -562,10 +562,11 @@ impl<Backing : AsRef<[u32]> + AsMut<[u32]>> DrawTarget<Backing> {
         let clip = match self.clip_stack.last() {
             Some(Clip {
                      rect: current_clip,
-                     mask: _,
+                     mask,
                  }) => Clip {
                 rect: current_clip.intersection_unchecked(&rect),
-                mask: None,
+                // a clip path pushed earlier still applies
+                mask: mask.clone(),
             },
             _ => Clip {
                 rect: rect,
